@@ -94,7 +94,17 @@ def run(ctx, out, tier):
     # ------------------------------------------------------------------ C19.env
     m = 0
     ne = None
+    cands = []
     for b in ctx.reachable_bodies():
+        if any(callee_matches(t, r"^std::env::var$") for bi, t in b.calls()):
+            top = b
+            while top.kind == "Closure" and top.parent and ctx.facts.body(top.parent) is not None:
+                top = ctx.facts.body(top.parent)
+            if top.id not in [c.id for c in cands]:
+                cands.append(top)
+    for b in cands:
+        # normalised view: a helper closure that reads `env::var(name)` is inlined at each use
+        b = ctx.inl(b, skip=ctx.domain_api, tag="domain", sugar=True) if not b.coroutine else b
         vs = [util.const_val(ctx, b, t["args"][0]) for bi, t in b.calls() if callee_matches(t, r"^std::env::var$") and t["args"]]
         if set(vs) >= {"BLOCKWATCH_AI_API_KEY"}:
             ne = b
@@ -129,6 +139,12 @@ def run(ctx, out, tier):
         else:
             out.viol("C19.env", "C19.env|BLOCKWATCH_AI_MODEL", ctx.where(ne), "the client's model is not taken from BLOCKWATCH_AI_MODEL")
         # the empty-key default stays empty (so that check_block's guard fires)
+        m_before = m
+        for bi, t in ne.calls():
+            if callee_matches(t, ENVS["BLOCKWATCH_AI_API_KEY"]):
+                kl = ctx.prov.read_operand(ne, t["args"][1])
+                cs = {l[1] for l in kl if l[0] == "const" and isinstance(l[1], str)}
+                key_consts = cs
         for bi, t in ne.calls():
             if callee_matches(t, r"Result::<T, E>::unwrap_or$"):
                 src = ctx.prov.read_operand(ne, t["args"][0])
@@ -155,6 +171,14 @@ def run(ctx, out, tier):
                             m += 1
                             continue
                     out.viol("C19.env", "C19.env|key-default", ctx.where(ne, t["span"]), "an unset API key defaults to %r instead of the empty key that is rejected before any request" % cs)
+        if m == m_before:
+            # no recognised default idiom (the default went through a helper): decide on the origins
+            # of the key handed to with_api_key - its only constants are the variable's name and ""
+            kc = locals().get("key_consts")
+            if kc is not None and "" in kc and kc <= {"", "BLOCKWATCH_AI_API_KEY"}:
+                m += 1
+            elif kc is not None:
+                out.viol("C19.env", "C19.env|key-default", ctx.where(ne), "an unset API key defaults to %r instead of the empty key that is rejected before any request" % sorted(kc - {"BLOCKWATCH_AI_API_KEY"}))
         # the detector builds the production client from the environment
         info = ctx.validator(NAME)
         det = ctx.facts.bodies.get(info["detect"]) if info and info.get("detect") else None
@@ -265,7 +289,9 @@ def run(ctx, out, tier):
     asyncval.check_collector(ctx, out, "C19", NAME)
     sel = ctx.facts.body("blockwatch::validators::check_ai::block_content")
     asyncval.check_content_selector(ctx, out, "C19", sel, "check-ai-pattern")
-    asyncval.check_sibling_selectors(ctx, out, rule="C19.siblings")
+    # (the former sibling comparison of the two content selectors was dropped: each selector is decided
+    # against the documented selection on its own - a change of the *other* validator's selector is not
+    # a violation of this property, and a style difference between the two is not a violation at all)
     shared.sh_err(ctx, out, ctx.validator_bodies(NAME) + [b for b in ctx.reachable_bodies() if b.id.startswith("blockwatch::validators::run") or "check_ai" in b.id], floor=25)
     shared.sh_state(ctx, out, NAME)
     shared.sh_merge(ctx, out, ctx.reachable_bodies())
